@@ -718,13 +718,61 @@ func setterArgJustified(fn *ssa.Function, call *ssa.Call, kind string) (bool, st
 		}
 		return false, "argument of the unchecked setter is not the output of a dominating reduceSaturated"
 	case "short":
-		// a dominating guard panics when len(src) >= ElementSize
+		// arg = BytesToSaturated(&buf) where buf is a zeroed local [32]byte written only by copy(buf[32-n:], src) with
+		// n = len(src), and a dominating guard panics when n >= 32: the top byte stays 0, value < 2^248 < modulus
+		var buf *ssa.Alloc
+		for _, b := range fn.Blocks {
+			for _, in := range b.Instrs {
+				st, ok := in.(*ssa.Store)
+				if !ok || st.Addr != arg || !instrBefore(st, call) {
+					continue
+				}
+				if cc, isCall := st.Val.(*ssa.Call); isCall && cc.Common().StaticCallee() != nil && cc.Common().StaticCallee().Name() == "BytesToSaturated" && len(cc.Common().Args) == 1 {
+					buf, _ = cc.Common().Args[0].(*ssa.Alloc)
+				}
+			}
+		}
+		if buf == nil {
+			return false, "argument is not BytesToSaturated of a local buffer"
+		}
+		var lenVal ssa.Value
+		for _, r := range *buf.Referrers() {
+			switch x := r.(type) {
+			case *ssa.Slice:
+				sub, ok := x.Low.(*ssa.BinOp)
+				if !ok || sub.Op != token.SUB {
+					return false, "the buffer is sliced at an offset that is not 32 - len(src)"
+				}
+				if k, isC := sub.X.(*ssa.Const); !isC || k.Int64() != 32 {
+					return false, "the buffer is sliced at an offset that is not 32 - len(src)"
+				}
+				if lenVal != nil && lenVal != sub.Y {
+					return false, "the buffer is written at two different offsets"
+				}
+				lenVal = sub.Y
+				for _, rr := range *x.Referrers() {
+					cc, isCall := rr.(*ssa.Call)
+					if !isCall {
+						return false, "the buffer slice has a use other than copy"
+					}
+					if bi, isB := cc.Common().Value.(*ssa.Builtin); !isB || bi.Name() != "copy" || cc.Common().Args[0] != ssa.Value(x) {
+						return false, "the buffer slice has a use other than being the destination of copy"
+					}
+				}
+			case ssa.CallInstruction, *ssa.DebugRef:
+			default:
+				return false, fmt.Sprintf("the buffer is used by %T", r)
+			}
+		}
+		if lenVal == nil {
+			return false, "no write of the input into the buffer found"
+		}
 		for _, b := range fn.Blocks {
 			if ifi, ok := b.Instrs[len(b.Instrs)-1].(*ssa.If); ok {
-				if cmp, ok := ifi.Cond.(*ssa.BinOp); ok && (cmp.Op.String() == ">=" || cmp.Op.String() == ">") {
+				if cmp, ok := ifi.Cond.(*ssa.BinOp); ok && cmp.X == lenVal && (cmp.Op.String() == ">=" || cmp.Op.String() == ">") {
 					if k, isC := cmp.Y.(*ssa.Const); isC && ((cmp.Op.String() == ">=" && k.Int64() <= 32) || (cmp.Op.String() == ">" && k.Int64() <= 31)) {
 						if _, isPanic := b.Succs[0].Instrs[len(b.Succs[0].Instrs)-1].(*ssa.Panic); isPanic && b.Succs[1].Dominates(call.Block()) {
-							return true, "input shorter than 32 bytes (guard panics otherwise), so the value is below 2^248 < modulus"
+							return true, "input shorter than 32 bytes (guard panics otherwise) and right-aligned in a zeroed buffer, so the value is below 2^248 < modulus"
 						}
 					}
 				}
@@ -742,6 +790,21 @@ func setterArgJustified(fn *ssa.Function, call *ssa.Call, kind string) (bool, st
 		for _, r := range *al.Referrers() {
 			ia, ok := r.(*ssa.IndexAddr)
 			if !ok {
+				// the array must be written element by element only: no whole-array store, no other routine that
+				// receives its address
+				switch x := r.(type) {
+				case *ssa.Store:
+					if x.Addr == ssa.Value(al) {
+						return false, "the limb array is assigned as a whole (not a literal)"
+					}
+				case ssa.CallInstruction:
+					if x != ssa.CallInstruction(call) {
+						return false, "the limb array is handed to another routine before the setter"
+					}
+				case *ssa.DebugRef:
+				default:
+					return false, fmt.Sprintf("the limb array is used by %T", r)
+				}
 				continue
 			}
 			k, isC := ia.Index.(*ssa.Const)
@@ -796,7 +859,7 @@ func reducedBefore(fn *ssa.Function, ptr ssa.Value, at ssa.Instruction, depth in
 			case *ssa.Call:
 				callee := x.Common().StaticCallee()
 				if callee != nil && callee.Name() == "reduceSaturated" && len(x.Common().Args) > 0 && x.Common().Args[0] == ptr && instrBefore(x, at) {
-					return true
+					return noWriteBetween(ptr, x, at)
 				}
 			case *ssa.Store:
 				// *ptr = <result of a helper returning reduced limbs>
@@ -810,6 +873,44 @@ func reducedBefore(fn *ssa.Function, ptr ssa.Value, at ssa.Instruction, depth in
 		}
 	}
 	return false
+}
+
+// noWriteBetween: the local array ptr is not written (element store, whole store, address handed to a routine) by any
+// instruction other than `from` that may execute before `to`.
+func noWriteBetween(ptr ssa.Value, from, to ssa.Instruction) bool {
+	al, ok := ptr.(*ssa.Alloc)
+	if !ok || al.Referrers() == nil {
+		return true // a parameter: the caller's obligation (rule C01-10 covers the methods' own aliasing)
+	}
+	for _, r := range *al.Referrers() {
+		if r == from || r == to {
+			continue
+		}
+		switch x := r.(type) {
+		case *ssa.UnOp, *ssa.DebugRef:
+		case *ssa.Store:
+			if x.Addr == ptr && !instrBefore(x, from) {
+				return false
+			}
+		case *ssa.IndexAddr:
+			for _, rr := range *x.Referrers() {
+				if st, isStore := rr.(*ssa.Store); isStore && st.Addr == ssa.Value(x) && !instrBefore(st, from) {
+					return false
+				}
+			}
+		case ssa.CallInstruction:
+			if !instrBefore(x, from) {
+				// a later routine receiving the address could modify it, unless it is known to read only
+				callee := x.Common().StaticCallee()
+				if callee == nil || (callee.Name() != "uncheckedSetSaturated" && callee.Name() != "PutSaturatedToBytes") {
+					return false
+				}
+			}
+		default:
+			return false
+		}
+	}
+	return true
 }
 
 // returnsReduced: v is (a component of) the result of a module function all of whose returns yield the
